@@ -415,7 +415,8 @@ class Ctx(object):
 # --------------------------------------------------------------------------
 def load_known():
     try:
-        return json.load(open(VERIF + "/known_findings.json"))
+        with open(VERIF + "/known_findings.json") as f:
+            return json.load(f)
     except OSError:
         return {"findings": [], "fixed": []}
 
